@@ -17,7 +17,9 @@ LEVEL_TEXT = ('Static decision of the structural necessary conditions of query p
               '(the scratch array receives a copy); on every path of every query the first access to a scratch '
               'attribute is a full re-definition with a pinned float dtype (or, on the N=1 path, a store into an '
               'array whose dtype every definition pins); no other attribute is written by queries; configuration '
-              'attributes are written only by the constructor/SetBounds, which copy their inputs.')
+              'attributes are written only by the constructor/SetBounds, which copy their inputs; lazily cached '
+              'attributes are functions of the configuration, re-established by every routine that changes what they '
+              'depend on.')
 EXPLANATION = ('Points-to facts decide aliasing of arguments and results with the evolvent\'s state; the scratch '
                'typestate is decided on path summaries of the public queries with the private helpers inlined in '
                'call order (node/number recursions kept opaque, loops unrolled once).')
